@@ -33,6 +33,9 @@ func init() {
 			{ID: "allocator.epoch_roundtrip", Pkg: "github.com/codelaboratoryltd/bng/pkg/allocator", File: "allocator_epoch_roundtrip.go",
 				Bound: "base networks /16, /22, /24, /28 x prefix lengths {24, 28, 30, 32} x grace periods {1, 2} x 0..3 epoch advances with renewals and one release: 120 allocator states",
 				Claim: "the snapshot restores; same epoch, same Lookup / LookupByIP for every subscriber and address, same Stats, same next allocation"},
+			{ID: "allocator.lease_remote_change", Pkg: "github.com/codelaboratoryltd/bng/pkg/allocator", File: "allocator_lease_remote_change.go",
+				Bound: "lease-mode DistributedAllocator.handleRemoteChange called as the store's watch would: grace periods {1, 2} x local epoch after 0..4 advances x announced epoch 0..local+4 x three addresses x three prior states of the subscriber (unknown / holding the announced address / holding another one), then an announced delete: 810 cases",
+				Claim: "every announced put not older than the local epoch minus the grace period (in particular every put stamped ahead of the local epoch) leaves the subscriber holding exactly the announced address, the address answering with that subscriber and never handed to a local subscriber afterwards; an announced delete leaves the subscriber without an address"},
 		},
 		Undecided: []string{
 			"round trip of the pool configuration (base_network string -> net.ParseCIDR -> baseIP/baseMask/step/totalPrefixes): relies on ParseCIDR(IPNet.String()) which is not modelled; only prefix_length is tracked",
